@@ -214,7 +214,7 @@ def run(rep, tier):
 
     def random_events():
         ev = wd / "ev_rand.ndjson"
-        run_driver("c15", ["random", 2500 if quick else 30000, ev, seed()], env=env, timeout=5000)
+        run_driver("c15", ["random", 2000 if quick else 30000, ev, seed()], env=env, timeout=5000)
         return ev
 
     def shuffled_events(name, k):
@@ -236,9 +236,9 @@ def run(rep, tier):
         ev, sev = wd / "ev_tseitin.ndjson", wd / "ev_tseitin_solve.ndjson"
         rev, rsev = wd / "ev_rformulas.ndjson", wd / "ev_rformulas_solve.ndjson"
         if quick:
-            # all formulas with <= 1 connective, a seeded sample of 230 of the 2-connective ones, 40 random larger ones
-            jobs = [("c15", ["tseitin", vec, ev, sev, seed(), 1, 230, "prove"], env),
-                    ("c15", ["rformulas", 40, rev, rsev, seed(), "prove"], env)]
+            # all formulas with <= 1 connective, a seeded sample of 170 of the 2-connective ones, 30 random larger ones
+            jobs = [("c15", ["tseitin", vec, ev, sev, seed(), 1, 170, "prove"], env),
+                    ("c15", ["rformulas", 30, rev, rsev, seed(), "prove"], env)]
         else:
             jobs = [("c15", ["tseitin", vec, ev, sev, seed(), 2, 1800, "prove"], env),
                     ("c15", ["rformulas", 1000, rev, rsev, seed(), "prove"], env)]
@@ -345,11 +345,11 @@ def run(rep, tier):
                            "random_max_conflicts": max([e["conflicts"] for e in rnd if e["verdict"] != "timeout"] + [0])}
     if all("T" in r for r in sat_res):
         require(n_sat >= 5000 and n_unsat >= 1500 and n_dup >= 1000, "C15: too few enumerated sat/unsat/duplicate-literal CNFs (vacuity guard)")
-        require(n_multi >= (40 if quick else 1000), "C15: random CNFs do not exercise multi-conflict refutations (vacuity guard)")
+        require(n_multi >= (30 if quick else 1000), "C15: random CNFs do not exercise multi-conflict refutations (vacuity guard)")
         require(sum(tr[k]["nontrivial"] for k in tr if k.startswith("solve_")) >= 0.85 * sum(tr[k]["events"] for k in tr if k.startswith("solve_")),
                 "C15: too few solve events examined (vacuity guard)")
     if not ts_res["S"].violated:
-        require(tr["tseitin"]["nontrivial"] >= (250 if quick else 2500), "C15: too few examined Tseitin theorems (vacuity guard)")
+        require(tr["tseitin"]["nontrivial"] >= (200 if quick else 2500), "C15: too few examined Tseitin theorems (vacuity guard)")
 
     # ---- second specification mutant: the algorithm with a back-jump to the HIGHEST level of the learned clause keeps the
     # trail and must not terminate (run on the model of the repaired code; on a tree without the repair only in thorough)
